@@ -83,30 +83,62 @@ Print Assumptions C16_no_stale_state_model.
 
 (* --- no waiter left ---------------------------------------------------------------------- *)
 
-(* At every cut point of every race-free history every awaited call is either done, or
-   registered on a connection the device still holds, or has the HCI event that will
-   release it on its way (see [wok]); no call is ever [Hung]. *)
+(* At every cut point of every history every awaited call is either done, or registered on
+   a connection the device still holds, or has the HCI event that will release it on its
+   way, or (a WLate call whose command status has just been delivered) is a task about to
+   run that will register or be cancelled (see [wok]).  No hypothesis on the schedule. *)
 Theorem C16_waiters_every_cut_point : forall tbl ops,
-  race_free tbl ops init = true -> Forall (wok (run tbl ops init)) (waiters (run tbl ops init)).
+  Forall (wok (run tbl ops init)) (waiters (run tbl ops init)).
 Proof. exact waiters_cut. Qed.
 Print Assumptions C16_waiters_every_cut_point.
 
-(* Once the timers have fired and nothing is in flight, every call that is not done is a
-   call on a connection that is still alive. *)
+(* no call is ever registered on a connection that is already gone *)
+Theorem C16_never_hung : forall tbl ops x,
+  In x (waiters (run tbl ops init)) -> w_st x <> Hung.
+Proof. exact never_hung. Qed.
+Print Assumptions C16_never_hung.
+
+(* Once the timers have fired, nothing is in flight and no task is waiting to run, every
+   call that is not done is a call on a connection that is still alive. *)
 Theorem C16_no_waiter_left : forall tbl ops,
-  race_free tbl (ops ++ [Tick]) init = true ->
   let s := run tbl (ops ++ [Tick]) init in
-  quiescent s = true ->
+  settled s = true ->
   Forall (fun x => live_waiter (dev s) x = true) (waiters s).
 Proof. exact no_waiter_left. Qed.
 Print Assumptions C16_no_waiter_left.
 
 Theorem C16_no_waiter_left_after_transport_loss : forall tbl ops,
-  race_free tbl (ops ++ [Tick]) init = true ->
   let s := run tbl (ops ++ [Tick]) init in
-  lost s = true -> Forall (fun x => is_done (w_st x) = true) (waiters s).
+  lost s = true -> forallb (fun x => negb (is_responded x)) (waiters s) = true ->
+  Forall (fun x => is_done (w_st x) = true) (waiters s).
 Proof. exact no_waiter_left_after_transport_loss. Qed.
 Print Assumptions C16_no_waiter_left_after_transport_loss.
+
+(* --- end to end --------------------------------------------------------------------------- *)
+
+(* The property as stated: after any history, once everything is quiet, host, device and
+   controller hold the same live set, every registry entry belongs to a connection the
+   controller still holds, and every awaited call is done or is on such a connection. *)
+Theorem C16_teardown_complete : forall tbl ops,
+  all_cleaned tbl = true ->
+  let s := run tbl (ops ++ [Tick]) init in
+  lost s = false -> settled s = true ->
+  (forall x, mem x (host s) = mem x (ctl s) /\ mem x (dev s) = mem x (ctl s)) /\
+  (forall r k, In (r, k) (regs s) -> mem (kconn k) (ctl s) = true) /\
+  Forall (fun x => is_done (w_st x) = true \/ mem (kconn (w_key x)) (ctl s) = true) (waiters s).
+Proof. exact teardown_complete. Qed.
+Print Assumptions C16_teardown_complete.
+
+(* Tearing one connection down leaves the registry entries, the awaited calls and the table
+   membership of every other connection untouched. *)
+Theorem C16_links_independent : forall tbl h s,
+  (forall p, In p (regs s) -> kconn (snd p) <> h -> In p (regs (fanout tbl h s))) /\
+  (forall x, In x (waiters s) -> kconn (w_key x) <> h -> In x (waiters (fanout tbl h s))) /\
+  (forall c, c <> h -> mem c (dev (fanout tbl h s)) = mem c (dev s) /\
+                       mem c (host (fanout tbl h s)) = mem c (host s)) /\
+  ctl (fanout tbl h s) = ctl s /\ c2h (fanout tbl h s) = c2h s /\ h2c (fanout tbl h s) = h2c s.
+Proof. exact links_independent. Qed.
+Print Assumptions C16_links_independent.
 
 (* --- the hypotheses are needed ----------------------------------------------------------- *)
 
@@ -119,30 +151,34 @@ Theorem C16_unclean_registry_refuted :
 Proof. exact stale_refuted. Qed.
 Print Assumptions C16_unclean_registry_refuted.
 
-(* known finding D16h: a call that registers its wait only after its HCI command status
-   (get_remote_le_features, request_remote_name) hangs when the connection is torn down
-   inside that window: waiter 7 ends [Hung] (code 3) / stays [Responded] (code 2) *)
-Theorem C16_late_registration_refuted :
-  race_free model_registries (racy_history ++ [Tick]) init = false /\
-  let s := run model_registries (racy_history ++ [Tick]) init in
-  quiescent s = true /\ mem 1 (dev s) = false /\
-  map (fun x => (w_id x, st_code (w_st x))) (waiters s) = [(7, 3)].
-Proof. exact late_registration_refuted. Qed.
-Print Assumptions C16_late_registration_refuted.
-
-Theorem C16_late_registration_loss_refuted :
-  race_free model_registries (racy_loss_history ++ [Tick]) init = false /\
-  let s := run model_registries (racy_loss_history ++ [Tick]) init in
-  lost s = true /\ dev s = [] /\
+(* [settled], not only [quiescent]: a task that has not run yet keeps its call pending
+   (state code 2) on a closed connection *)
+Theorem C16_unsettled_refuted :
+  let s := run model_registries (unsettled_history ++ [Tick]) init in
+  quiescent s = true /\ settled s = false /\ mem 1 (dev s) = false /\
   map (fun x => (w_id x, st_code (w_st x))) (waiters s) = [(7, 2)].
-Proof. exact late_registration_loss_refuted. Qed.
-Print Assumptions C16_late_registration_loss_refuted.
+Proof. exact unsettled_refuted. Qed.
+Print Assumptions C16_unsettled_refuted.
 
 (* --- non-vacuity ------------------------------------------------------------------------- *)
 
 (* a race-free history in which a disconnection by the peer cancels a GATT request, ends a
    pairing, resolves a local disconnect, leaves a queued request to its timer, and empties
    four registries; the same by transport loss *)
+(* the former late-registration race (D16h/D16i, repaired): the link is cut between the command
+   status and the resumption of the awaiting task; when the task runs it is cancelled (code 12),
+   by a disconnection and by a transport loss alike *)
+Example C16_late_registration_now_cancelled :
+  let ops1 := [Establish 1; DeliverC2H; Start 7 (WLate HkConnListeners) (1, 0); DeliverH2C; PeerDisc 1;
+               DeliverC2H; DeliverC2H; Resume 7; Tick] in
+  let ops2 := [Establish 1; DeliverC2H; Start 7 (WLate HkConnListeners) (1, 0); DeliverH2C; DeliverC2H;
+               Loss; Resume 7; Tick] in
+  settled (run model_registries ops1 init) = true /\
+  settled (run model_registries ops2 init) = true /\
+  map (fun x => (w_id x, st_code (w_st x))) (waiters (run model_registries ops1 init)) = [(7, 12)] /\
+  map (fun x => (w_id x, st_code (w_st x))) (waiters (run model_registries ops2 init)) = [(7, 12)].
+Proof. vm_compute. repeat split; reflexivity. Qed.
+
 Example C16_nonvacuous_disconnection :
   let ops := [Establish 1; DeliverC2H;
               Insert "smp.Manager.sessions" (1, 0); Insert "gatt_server.Server.subscribers" (1, 64);
@@ -150,7 +186,7 @@ Example C16_nonvacuous_disconnection :
               Start 1 (WConnBound HkConnListeners) (1, 0); Start 2 WTimerOnly (1, 0);
               Start 3 (WConnBound HkL2cap) (1, 0); LocalDisc 4 1; HciCommand 5;
               PeerDisc 1; DeliverH2C; DeliverH2C; DeliverC2H; DeliverC2H; Tick] in
-  race_free model_registries ops init = true /\
+  settled (run model_registries ops init) = true /\
   obs (run model_registries ops init) = ([], [], [], [], [(1, 12); (2, 13); (3, 12); (4, 10); (5, 10)]).
 Proof. vm_compute. split; reflexivity. Qed.
 
@@ -159,6 +195,6 @@ Example C16_nonvacuous_transport_loss :
               Insert "smp.Manager.sessions" (1, 0); Insert "gatt_server.Server.pending_confirmations" (2, 0);
               Start 1 (WConnBound HkConnListeners) (1, 0); Start 2 WTimerOnly (2, 0); HciCommand 5;
               Loss; Tick] in
-  race_free model_registries ops init = true /\
+  settled (run model_registries ops init) = true /\
   obs (run model_registries ops init) = ([2; 1], [], [], [], [(1, 12); (2, 13); (5, 11)]).
 Proof. vm_compute. split; reflexivity. Qed.
